@@ -1,5 +1,5 @@
 import AmVerif.Gen.Skel
-import AmVerif.Gen.Tables
+import AmVerif.Gen.TabLock
 import AmVerif.Lemmas.IsoTok
 /-!
 # C07 — readers are isolated from reloads: guards pin values, no torn reads
